@@ -190,9 +190,13 @@ func ownPort() int {
 	return 12000 + int(mck.Shard)*600 + portCounter%600
 }
 
+// loopAddr: this worker's own loopback address (see mck.LoopAddr): sinks of check runs going on at the same
+// time cannot be reached by each other's producers.
+func loopAddr() net.IP { a := mck.LoopAddr(); return net.IPv4(a[0], a[1], a[2], a[3]) }
+
 func newSink() *sink {
 	for k := 0; k < 600; k++ {
-		ln, err := net.Listen("tcp4", fmt.Sprintf("127.0.0.1:%d", ownPort()))
+		ln, err := net.Listen("tcp4", fmt.Sprintf("%s:%d", loopAddr(), ownPort()))
 		if err == nil {
 			return &sink{addr: ln.Addr().String(), ln: ln}
 		}
@@ -408,7 +412,7 @@ func runTCPCase(c *mck.Ctx, fc faultCase) {
 		case err := <-done:
 			// setup failed (it logs and returns the error): not a delivery matter, but the harness cannot go on
 			fmt.Fprintf(os.Stderr, "prod harness: Producer.Run returned before connecting: %v (case %s)\n", err, fc.String())
-			os.Exit(2)
+			os.Exit(3)
 		default:
 		}
 	}
@@ -577,6 +581,170 @@ func runTCPCase(c *mck.Ctx, fc faultCase) {
 	}
 }
 
+// burstSpace: the producer's channel is BUFFERED as in the collector (the workers run ahead of the producer)
+// and messages are handed over in bursts: b1 messages while the sink is up, the sink goes away (listener
+// down + RST, seen by the producer's socket), b2 messages are queued while it is away, the producer works
+// through them (state barrier: parked in its receive with an empty queue), the sink comes back, b3 more.
+// Oracle: what the sink got is an in-order, duplicate-free, byte-identical subsequence of what was handed
+// over, nothing of burst 1 is missing, and the producer comes to rest.
+func burstSpace(tier string) mck.Space {
+	dims := mck.Radix{3, 3, 3, 3, 2} // b1 1..3, b2 1..3, b3 1..3, retry-max, message kind {0, 3}
+	return mck.FuncSpace{N: dims.Size(), F: func(idx uint64, c *mck.Ctx) {
+		d := dims.Digits(idx)
+		b1, b2, b3, retry, kind := d[0]+1, d[1]+1, d[2]+1, d[3], []int{0, 3}[d[4]]
+		var hand, msgs [][]byte
+		for len(hand) < b1+b2+b3 { // 6 messages per set: number the rounds to keep all messages distinct
+			h, _ := messages(kind)
+			for _, m := range h {
+				hand = append(hand, append(append([]byte{}, m...), []byte(fmt.Sprintf("#%d", len(hand)))...))
+			}
+		}
+		hand = hand[:b1+b2+b3]
+		if kind == 3 { // adjacent sub-slices of one buffer
+			var buf []byte
+			var cuts []int
+			for _, m := range hand {
+				buf = append(buf, m...)
+				cuts = append(cuts, len(buf))
+			}
+			a := 0
+			for i, b := range cuts {
+				hand[i] = buf[a:b]
+				a = b
+			}
+		}
+		for _, m := range hand {
+			msgs = append(msgs, append([]byte{}, m...))
+		}
+		desc := func() interface{} {
+			return map[string]interface{}{"protocol": "tcp", "bursts": []int{b1, b2, b3}, "retry-max": retry, "messages": kind, "case": fmt.Sprintf("%d up, sink away, %d queued, sink back, %d more", b1, b2, b3)}
+		}
+		c.SetCase(desc)
+		s := newSink()
+		defer func() {
+			s.closeConns(true)
+			s.down()
+		}()
+		cfg := filepath.Join(tmpDir(), "mq.conf")
+		os.WriteFile(cfg, []byte(fmt.Sprintf("url: %s\nprotocol: tcp\nretry-max: %d\n", s.addr, retry)), 0644)
+		p := producer.NewProducer("rawSocket")
+		p.MQConfigFile = cfg
+		var ec uint64
+		p.MQErrorCount = &ec
+		p.Logger = log.New(io.Discard, "", 0)
+		p.Chan = make(chan []byte, 16)
+		p.Topic = "t"
+		done := make(chan error, 1)
+		go func() { done <- p.Run() }()
+		defer func() { // no producer goroutine may outlive its case: the idle barrier looks for THE goroutine in inputMsg
+			close(p.Chan)
+			select {
+			case <-done:
+			case <-time.After(10 * time.Second):
+				fmt.Fprintln(os.Stderr, "prod harness: Run did not return after the channel was closed")
+				os.Exit(3)
+			}
+		}()
+		for k := 0; k < 10 && len(s.conns) == 0; k++ {
+			s.acceptPending(2 * time.Second)
+			select {
+			case err := <-done:
+				fmt.Fprintf(os.Stderr, "prod harness: Producer.Run returned before connecting: %v\n", err)
+				os.Exit(3)
+			default:
+			}
+		}
+		if len(s.conns) != 1 {
+			c.Violation("producer:no-initial-connection", fmt.Sprintf("the producer did not connect to the sink within 20 s (connections=%d)", len(s.conns)), desc())
+			return
+		}
+		rest := func(what string) bool { // the producer has worked through its queue and is parked in the receive
+			for k := 0; k < 100000; k++ {
+				if len(p.Chan) == 0 && producerIdle() {
+					return true
+				}
+				time.Sleep(100 * time.Microsecond)
+			}
+			c.Violation("producer:burst:never-at-rest", "the producer did not come to rest within 10 s "+what+fmt.Sprintf(" (queue length %d)", len(p.Chan)), desc())
+			return false
+		}
+		i := 0
+		for ; i < b1; i++ {
+			p.Chan <- hand[i]
+		}
+		if !rest("after the first burst") {
+			return
+		}
+		s.settle(p)
+		s.down()
+		s.closeConns(true)
+		if pc := producer.VerifConn(p); pc != nil {
+			for k := 0; k < 4000; k++ {
+				if st := tcpState(pc); st != 1 {
+					break
+				}
+				time.Sleep(500 * time.Microsecond)
+			}
+		}
+		for ; i < b1+b2; i++ {
+			p.Chan <- hand[i]
+		}
+		if !rest("while the sink was away") {
+			return
+		}
+		s.up()
+		for ; i < len(hand); i++ {
+			p.Chan <- hand[i]
+		}
+		if !rest("after the sink came back") {
+			return
+		}
+		s.acceptNow()
+		s.settle(p)
+		var got [][]byte
+		for _, b := range s.bufs {
+			parts := bytes.Split(b, []byte("\n"))
+			got = append(got, parts[:len(parts)-1]...)
+		}
+		show := func() []string {
+			var lines []string
+			for _, x := range got {
+				lines = append(lines, string(x))
+			}
+			return lines
+		}
+		j := 0
+		for gi, g := range got {
+			found := false
+			for j < len(msgs) && !found {
+				found = bytes.Equal(g, msgs[j])
+				j++
+			}
+			if !found {
+				dd := desc().(map[string]interface{})
+				dd["received"] = show()
+				c.Violation("producer:burst:out-of-order-duplicate-or-altered", fmt.Sprintf("line %d at the sink (%q) is not a later message than the lines before it", gi+1, string(g)), dd)
+				return
+			}
+		}
+		for k := 0; k < b1; k++ {
+			if k >= len(got) || !bytes.Equal(got[k], msgs[k]) {
+				dd := desc().(map[string]interface{})
+				dd["received"] = show()
+				c.Violation("producer:burst:lost-without-fault", fmt.Sprintf("message %d, handed over before any fault, did not reach the sink in its place", k+1), dd)
+				return
+			}
+		}
+		c.Nontrivial(mck.Hash64([]byte(fmt.Sprint(d))))
+		c.States(1)
+		c.Transitions(uint64(len(msgs)))
+		c.Outcome(fmt.Sprintf("delivered=%d/%d", len(got), len(msgs)))
+		if idx%11 == 0 {
+			c.Sample(desc)
+		}
+	}}
+}
+
 // udpSpace: udp socket configuration; the sink is a UDP listener that is up / down per message.
 func udpSpace(tier string) mck.Space {
 	const nmsg = 6
@@ -591,7 +759,7 @@ func udpSpace(tier string) mck.Space {
 		var ln *net.UDPConn
 		var err error
 		for k := 0; k < 600 && ln == nil; k++ {
-			ln, err = net.ListenUDP("udp4", &net.UDPAddr{IP: net.IPv4(127, 0, 0, 1), Port: ownPort()})
+			ln, err = net.ListenUDP("udp4", &net.UDPAddr{IP: loopAddr(), Port: ownPort()})
 		}
 		if ln == nil {
 			panic(err)
@@ -711,5 +879,5 @@ func udpSpace(tier string) mck.Space {
 }
 
 func main() {
-	mck.Main(map[string]func(string) mck.Space{"prod.tcp": tcpSpace, "prod.udp": udpSpace})
+	mck.Main(map[string]func(string) mck.Space{"prod.tcp": tcpSpace, "prod.burst": burstSpace, "prod.udp": udpSpace})
 }
